@@ -36,3 +36,29 @@ PLANS["C03"] = Plan(
     explanation="conversion laws proved over all real scales/offsets from the real "
                 "_get_conversion_factor body",
 )
+
+import ground_checks as G   # noqa: E402
+
+PLANS["C03"].lemmas = [("contracts.lemmas_c03", "identity"), ("contracts.lemmas_c03", "inverse"),
+                       ("contracts.lemmas_c03", "composition")]
+
+PLANS["C14"] = Plan(
+    level="proof",
+    proofs=[("contracts.units_core", "SplitPrefix"), ("contracts.units_core", "SplitPrefixComplete"),
+            ("contracts.units_core", "LookupUnitSymbol")],
+    bounded=("bounded/c14.py", [], []),
+    trusted_base=BASE_TRUST,
+    explanation="prefix resolution proved for all strings and all tables (z3 strings); the finite "
+                "name space is enumerated completely on the real package (exhaustive bounded run)",
+)
+
+PLANS["C02"] = Plan(
+    level="proof",
+    proofs=[("contracts.units_core", "SplitPrefix"), ("contracts.units_core", "LookupUnitSymbol"),
+            ("contracts.units_core", "GetConversionFactor")],
+    lemmas=[("contracts.lemmas_c03", "scale_ratio")],
+    ground=[G.g_unit_table],
+    trusted_base=BASE_TRUST,
+    explanation="every table row against independent exact definitions (ground, exhaustive); "
+                "prefix lookup and conversion factor proved for all tables",
+)
